@@ -55,6 +55,7 @@ def _prof(name: str) -> Prof:
                 'prem_nt': Prof(symbol=0, svar=False, mu=False, app=False, metavars=1, notations=(P.bot, P.neg, P._and, P._or)),
                 'prem_and': Prof(symbol=0, svar=False, mu=False, app=False, exists=False, metavars=0, notations=(P._and, P._or)),
                 'prem_ss': Prof(symbol=0, svar=False, mu=False, app=False, exists=False, metavars=2, subst=True),
+                'prem_es': Prof(symbol=0, svar=False, mu=False, app=False, exists=False, metavars=1, subst=True, mv_cfgs=((0, 0, 0, 0), (1, 0, 0, 0))),
                 'rawbody': Prof(symbol=0, svar=False, mu=False, exists=False, app=False, metavars=2),
                 'rawval': Prof(symbol=0, svar=False, mu=False, exists=False, app=False, implies=False, metavars=2),
                 'small': Prof(symbol=1, svar=False, mu=False, metavars=1),
@@ -314,6 +315,8 @@ def levels(tier: str) -> list[dict]:
             L.append(dict(label=f'gen/{it}/after-sibling-calls/asymmetric-binder-notation/n={n}', module=M, fn='h_gen', kwargs=dict(n=n, prof='prem_asym', interp=it, history=True), budget_s=bud, required=n <= 5, twin=False))
         L.append(dict(label=f'gen/{it}/after-sibling-calls/prem_nt/n=4', module=M, fn='h_gen', kwargs=dict(n=4, prof='prem_nt', interp=it, history=True), budget_s=bud, required=True, twin=False))
         L.append(dict(label=f'gen/{it}/prem_ss/n=5', module=M, fn='h_gen', kwargs=dict(n=5, prof='prem_ss', interp=it), budget_s=bud, required=True, twin=False))
+        # pending substitution over a metavariable that is declared fresh for some element variable (plug may mention it)
+        L.append(dict(label=f'gen/{it}/prem_es/n=5', module=M, fn='h_gen', kwargs=dict(n=5, prof='prem_es', interp=it), budget_s=bud, required=True, twin=False))
         if it != 'thunk':
             for n in (1, 3):
                 L.append(dict(label=f'mp/{it}/partial-instantiate/body={n}', module=M, fn='h_mp_raw', kwargs=dict(n=n, interp=it), budget_s=bud, required=True, twin=False))
